@@ -16,7 +16,7 @@ LEVEL = "exploration"
 TECHNIQUE = "exhaustive enumeration of facade method x command set x every subset of optional keyword arguments x device-provided buffer contents over a recording device; call count, CDB (independent spec decoder), buffer identity and decode-after-execute ordering are checked on every call"
 RULE = ("38 facade methods x every command set whose table offers the command x every subset of the optional keyword arguments (from "
         "inspect.signature of the command class; each supplied argument takes 2 non-default values) x 2-3 well-formed device responses chosen to "
-        "match the request (VPD page by page code, mode page by page code, PR IN data by service action, disc information by data type, READ CD "
+        "match the request; plus every method x set x 10 exception types raised by the device *after* it took the command (exactly one submission, the same exception object reaches the caller) (VPD page by page code, mode page by page code, PR IN data by service action, disc information by data type, READ CD "
         "sectors by selection bits). Non-trivial = at least one optional argument supplied or a non-SPC command set; distinct = distinct (method, "
         "set, argument dict, response).")
 ASSUMPTIONS = [
@@ -57,6 +57,10 @@ class RecDev(object):
             n = min(len(self.response), len(cmd.datain))
             cmd.datain[:n] = self.response[:n]
         rec["datain_after"] = bytes(cmd.datain) if cmd.datain is not None else None
+        if self.fault is not None:
+            raise self.fault
+
+    fault = None
 
     def close(self):
         pass
@@ -163,7 +167,42 @@ def decoder_kwargs(method, kw):
     return {}
 
 
+FAULTS = {"TypeError": TypeError, "ValueError": ValueError, "OSError": OSError, "KeyError": KeyError, "AttributeError": AttributeError,
+          "RuntimeError": RuntimeError, "IndexError": IndexError, "NotImplementedError": NotImplementedError, "MemoryError": MemoryError,
+          "StopIteration": StopIteration}
+
+
+def run_fault(case, obs=None):
+    """the device raises *after* having taken the command: the error must reach the caller, and the command must not be resubmitted"""
+    _, method, st, fault = case
+    from pyscsi.pyscsi.scsi import SCSI
+    import pyscsi.pyscsi.scsi_enum_command as E
+    dev = RecDev(getattr(E, st))
+    s = SCSI(dev, 512)
+    dev.opcodes = getattr(E, st)
+    del dev.calls[:]
+    exc = FAULTS[fault]("device fault after submission")
+    dev.fault = exc
+    dev.response = None
+    out = []
+    where = "%s on %s, device raises %s after taking the command" % (method, st, fault)
+    try:
+        F.call(s, method)
+        err = None
+    except BaseException as e:   # noqa: BLE001
+        err = e
+    if obs is not None:
+        obs.append((len(dev.calls), type(err).__name__))
+    if len(dev.calls) != 1:
+        out.append(("%s/fault/call_count" % method, "%s: the device was handed the command %d times" % (where, len(dev.calls))))
+    if err is not exc:
+        out.append(("%s/fault/error_not_passed_on" % method, "%s: the caller saw %r" % (where, err)))
+    return out
+
+
 def run_case(case, obs=None):
+    if case[0] == "fault":
+        return run_fault(case, obs)
     method, st, kwj, variant = case
     name, key, base_args = F.FACADE[method]
     from pyscsi.pyscsi.scsi import SCSI
@@ -322,5 +361,18 @@ def run_partition(part, tier, seed):
                             acc.outcome((method, tuple(obs), tuple(x for x, _ in v)))
                             if "nonvacuous" in obs:
                                 acc.add("results_that_differ_from_the_zero_buffer_decode")
+    for st in F.sets_offering(method):
+        for fault in FAULTS:
+            case = ["fault", method, st, fault]
+            obs = []
+            try:
+                v = run_case(case, obs)
+            except Exception:
+                import traceback
+                v = [("harness_error/%s" % method, traceback.format_exc()[-700:])]
+            acc.case(case, nontrivial=True, key=repr(case))
+            for kk, w in v:
+                acc.violation(kk, w, case)
+            acc.outcome((method, tuple(obs), tuple(x for x, _ in v)))
     acc.extra["optional_arguments"] = ["%s:%s" % (method, ",".join(opts))]
     return acc
